@@ -12,7 +12,7 @@ Section Interleave.
     if Nat.eqb j i then option_map f (nth_error l i) else nth_error l i.
   Proof.
     induction l as [|x r IH]; intros i j.
-    - cbn. destruct (Nat.eqb j i); destruct i; reflexivity.
+    - destruct j, i; cbn; try reflexivity. destruct (Nat.eqb j i); reflexivity.
     - destruct j as [|j], i as [|i]; cbn; try reflexivity. apply IH.
   Qed.
 
@@ -145,10 +145,6 @@ Proof.
 Qed.
 
 (* ---------- the instance: hypotheses are satisfiable ---------- *)
-Lemma mstep_stutters : forall prog,
-  stutters (list instr) mlocal mstep (mfinished prog) \/ True.
-Proof. intros. right. exact I. Qed.
-
 Lemma mstep_stutters_prog prog l : mfinished prog l = true -> mstep prog l = l.
 Proof.
   unfold mfinished, mstep. intros H. apply Nat.leb_le in H.
